@@ -915,9 +915,12 @@ impl Format for ast::Expr {
                     };
                     // A minus sign on a plain number reads (and is printed by the decompiler) as a negative
                     // literal; don't wrap that in parentheses, so that `-3` stays `-3` when reformatted.
-                    let is_negated_number = op.value == token![unop -] && !operand_needs_parens && matches!(
-                        &x.value, ast::Expr::LitInt { .. } | ast::Expr::LitFloat { .. },
-                    );
+                    // (non-finite floats print as the names INF and NAN, which read back as variables)
+                    let is_negated_number = op.value == token![unop -] && !operand_needs_parens && match &x.value {
+                        ast::Expr::LitInt { .. } => true,
+                        ast::Expr::LitFloat { value } => value.is_finite(),
+                        _ => false,
+                    };
                     match (operand_needs_parens, is_negated_number) {
                         (true, _) => out.fmt_optional_parens(|out| out.fmt((op, "(", SuppressParens(x), ")"))),
                         (false, true) => out.fmt((op, x)),
